@@ -14,17 +14,23 @@ fn two_char_names() -> Vec<String> {
     v
 }
 
+pub fn config_with_calib(data_dir: &str) -> Value {
+    let mut v = config();
+    v.as_object_mut().unwrap().insert("calib".into(), crate::calib::calib_config(data_dir));
+    v
+}
+
 pub fn config() -> Value {
     let mut a16 = Vec::new();
     let mut pwb = Vec::new();
     for n in two_char_names() {
         if let Ok(b) = alpha16::BoardId::try_from(n.as_str()) {
-            a16.push(json!({"name": b.name(), "mac": b.mac_address().to_vec()}));
+            a16.push(json!({"name": b.name(), "nb": b.name().as_bytes(), "mac": b.mac_address().to_vec()}));
         }
         if let Ok(b) = padwing::BoardId::try_from(n.as_str()) {
-            pwb.push(json!({"name": b.name(), "mac": b.mac_address().to_vec(),
+            pwb.push(json!({"name": b.name(), "nb": b.name().as_bytes(), "mac": b.mac_address().to_vec(),
                             "dev": b.device_id().to_be_bytes().to_vec()}));
         }
     }
-    json!({"a16": a16, "pwb": pwb})
+    json!({"a16": a16, "pwb": pwb, "maps": crate::evt::map_config(&crate::evgen::RUNS)})
 }
